@@ -793,6 +793,9 @@ CORPUS = [
     ["E f ( a , ( b , c ) )", "E a = b , c", "E x = { 1 , 2 }", "E f ( )", "E a [ ]", "E ( )"],
     ["E a . b ( c )", "E a :: b ( c )", "E - f ( x ) [ 1 ] ++", "E * p ++", "E & a -> b"],
     ["G a b +", "G ? b", "G ( a", "G a ++ b", "G ( a ) b", "G 7 . A ( 2 )", "G 1.f . q", "G a )", "G ]"],   # accepted or rejected garbage
+    ["E x = { aaaaaaaaaaaaaaaaaaaaaaaaaaaaaaaaaaaa , b , c }", "E x = { a , bbbbbbbbbbbbbbbbbbbbbbbbbbbbbbbbbbbb , c , d }",
+     "E y = { aaaaaaaaaaaaaaaaaaaaaaaaaa , bbbbbbbbbbbbbbbbbbbbbbbbbb , cccccccccccccccccccccccccc , d , e }"],   # newline-delimited tuples
+    ['E "\\\\\\"" + "\\\\" + \'\\\\\\\'\'', "E - -- a", "E + ++ a", "E -- - a"],   # escaped backslash before an escaped quote; operator/character mix
     ["E f ( aaaaaaaaaaaaaaaaaaaaaaaaaaaaaaaaaaaaaaaa , b )",
      "E g ( aaaaaaaaaaaaaaaaaaaa , bbbbbbbbbbbbbbbbbbbb , cccccccccccccccccccc , dddddddddddddddddddd , e )"],   # newline-delimited calls
 ]
